@@ -78,9 +78,12 @@ def delta1d (filt : List α) (mode : PadMode α) (cast : α → α) (x : List α
 /-- `Deltas.apply(features, axis)` (`in_place` is never read by the code).
 
 `np.pad` raises `ValueError` on an empty filtered axis for every mode but `constant`; that happens
-inside the loops, i.e. only when there is at least one filter and at least one lane. -/
+inside the loops, i.e. only when there is at least one filter and at least one lane.  (For rank ≥ 1
+`lanes > 0 ∧ T = 0` is how "some lane exists and it is empty" reads on shapes.) -/
 def apply (c : Deltas α) (x : Tensor α) (axis : Int) : Except Err (Tensor α) :=
-  if x.shape.length = 0 then .error .zeroDivision  -- `axis % features.ndim`
+  -- rank 0: `range(0)` is empty, so `axis % features.ndim` is never evaluated; the 0-d "slice" then reaches
+  -- `np.correlate`, which rejects it (ValueError) - if there is a filter at all
+  if x.shape.length = 0 ∧ 1 ≤ c.numDeltas then .error .value
   else
     let ax := (axis % (x.shape.length : Int)).toNat
     let T := x.shape.getD ax 0
@@ -157,9 +160,19 @@ def path2d (timeAxis T nT nF : Nat) (x : Tensor α) : Except Err (Tensor α) := 
 def pathNd (n timeAxis axis T : Nat) (x : Tensor α) : Except Err (Tensor α) :=
   Tensor.concatenate ((List.range n).map fun i => x.sliceAxis timeAxis i T n) (axis : Int)
 
-/-- `Stack.apply(features, axis)`.  `in_place` only chooses between a copy and a view in the 2-D
-branch; the returned values are the same. -/
-def apply (c : Stack α) (x : Tensor α) (axis : Int) : Except Err (Tensor α) :=
+/-- what `apply` has computed when it reaches the `if features.ndim == 2` test -/
+structure Prep (α : Type) where
+  ta : Nat
+  ax : Nat
+  /-- `T = nT * num_vectors` -/
+  T : Nat
+  nT : Nat
+  nF : Nat
+  /-- `features`, right-padded along the time axis if `pad_mode` asks for it -/
+  x1 : Tensor α
+
+/-- lines 531-546: axis normalisation (`%`), the `axis == time_axis` guard, optional padding, sizes -/
+def prepare (c : Stack α) (x : Tensor α) (axis : Int) : Except Err (Prep α) :=
   if x.shape.length = 0 then .error .zeroDivision
   else
     let ax := (axis % (x.shape.length : Int)).toNat
@@ -169,16 +182,27 @@ def apply (c : Stack α) (x : Tensor α) (axis : Int) : Except Err (Tensor α) :
       let T0 := x.shape.getD ta 0
       let F := x.shape.getD ax 0
       let rem := T0 % c.numVectors
-      let (x1, T1) := match c.padMode with
+      let padded : Tensor α × Nat := match c.padMode with
         | some mode =>
           if rem ≠ 0 then (x.padAxis ta 0 (c.numVectors - rem) mode, T0 + (c.numVectors - rem))
           else (x, T0)
         | none => (x, T0)
-      let nT := T1 / c.numVectors
+      let nT := padded.2 / c.numVectors
       let nF := F * c.numVectors
-      let T := nT * c.numVectors
-      if x.shape.length = 2 then path2d ta T nT nF x1
-      else pathNd c.numVectors ta ax T x1
+      .ok { ta := ta, ax := ax, T := nT * c.numVectors, nT := nT, nF := nF, x1 := padded.1 }
+
+/-- `Stack.apply(features, axis)`.  `in_place` only chooses between a copy and a view in the 2-D
+branch; the returned values are the same. -/
+def apply (c : Stack α) (x : Tensor α) (axis : Int) : Except Err (Tensor α) := do
+  let p ← prepare c x axis
+  if x.shape.length = 2 then path2d p.ta p.T p.nT p.nF p.x1
+  else pathNd c.numVectors p.ta p.ax p.T p.x1
+
+/-- `apply` with the 2-D special case deleted (every input takes the strided N-D branch);
+`C15.stack_2d_eq_nd` shows `apply = applyNd`. -/
+def applyNd (c : Stack α) (x : Tensor α) (axis : Int) : Except Err (Tensor α) := do
+  let p ← prepare c x axis
+  pathNd c.numVectors p.ta p.ax p.T p.x1
 
 end Stack
 
